@@ -93,6 +93,9 @@ var compileSources = []string{
 	"(and u (> w 0))", // u, w: only known in undefined-variable mode
 	";;;; reordering:true\n(and (p 1) (f x) (> (+ 1 2) n))",
 	"(+ K (if KT n m))",
+	"; an ordinary comment first\n;;;; optimize:false\n(and (or x y) (> (+ n 1) m) (= s \"a\"))",
+	"\n  \t;;;; reordering:false, constant_folding:false\n(or (and true x) (if y (> n 0) (in n l)) (f z))",
+	";; note\n; another\n;;;; fast_evaluation:false\n;;;; reduce_nesting:false\n(and x (and y (and z (or x y))))",
 }
 
 func baseConfig(r *rand.Rand, kind int) *eval.Config {
